@@ -157,6 +157,10 @@ func analyse(p *Prog, id, tier string, verbose bool) (rep *Report) {
 			rep.Undecided("R0", "checker-panic", "-", fmt.Sprint(e))
 		}
 	}()
+	if p.Inl != nil {
+		rep.Note("helper normalisation: %d call(s) of unknown private helpers inlined, %d devirtualised, %d edge(s) threaded, %d helper(s) folded away%s",
+			p.Inl.nCalls, p.Inl.nDevirt, p.Inl.nThread, len(p.Inl.dead), inlSummary(p.Inl))
+	}
 	s := newSem(p)
 	if len(s.unresolved) > 0 {
 		rep.Rule("R0", "all anchors resolve", 0)
@@ -203,4 +207,15 @@ func writeFailedEvidence(evDir, id, tier string, seed int, err error) {
 	b := fmt.Sprintf(`{"property_id":%q,"tier":%q,"seed":%d,"level":"other","coverage":{"explanation":%q,"obligations":0,"discharged":0},"wall_s":0,"violations":0}`+"\n",
 		id, tier, seed, "analysis could not run: "+err.Error())
 	_ = os.WriteFile(filepath.Join(evDir, id+".json"), []byte(b), 0o644)
+}
+
+func inlSummary(il *inliner) string {
+	if len(il.Log) == 0 {
+		return ""
+	}
+	l := il.Log
+	if len(l) > 12 {
+		l = append(append([]string{}, l[:12]...), fmt.Sprintf("… %d more", len(il.Log)-12))
+	}
+	return ": " + strings.Join(l, "; ")
 }
